@@ -15,7 +15,7 @@ Blame ==
   @@ "hb.fifo.parent"   :> {"C16"}
   @@ "hb.phase.stream"  :> {"C13"}
   @@ "hb.fifo.stream"   :> {"C13"}
-  @@ "hb.phase.broker"  :> {"C09"} @@ "hb.phase.broker.restarted" :> {"C09", "C07"}
+  @@ "hb.phase.broker"  :> {"C09"} @@ "hb.phase.broker.restarted" :> {"C09", "C07", "C15"}
   @@ "hb.fifo.broker"   :> {"C09"}
   @@ "hb.inst"    :> {"C07"}
   @@ "he.phase"   :> {"C01"}
